@@ -80,11 +80,8 @@ pub fn record(suite: &str, _n: usize, _seed: u64, _arg: &str, out: &mut dyn Writ
         };
         k("Fq", "QUADRATIC_NON_RESIDUE_TO_TRACE", "QUADRATIC_NON_RESIDUE_TO_TRACE", Fq::QUADRATIC_NON_RESIDUE_TO_TRACE.to_bytes_le().to_vec());
         k("Fp", "QUADRATIC_NON_RESIDUE_TO_TRACE", "QUADRATIC_NON_RESIDUE_TO_TRACE", Fp::QUADRATIC_NON_RESIDUE_TO_TRACE.to_bytes_le().to_vec());
-        #[cfg(feature = "ark")]
-        {
-            k("Fp", "MINUS_ONE", "MINUS_ONE", Fp::MINUS_ONE.to_bytes_le().to_vec());
-            k("Fp", "QUADRATIC_NON_RESIDUE", "QUADRATIC_NON_RESIDUE", Fp::QUADRATIC_NON_RESIDUE.to_bytes_le().to_vec());
-        }
+        k("Fp", "MINUS_ONE", "MINUS_ONE", Fp::MINUS_ONE.to_bytes_le().to_vec());
+        k("Fp", "QUADRATIC_NON_RESIDUE", "QUADRATIC_NON_RESIDUE", Fp::QUADRATIC_NON_RESIDUE.to_bytes_le().to_vec());
     }
     // curve constants
     {
